@@ -321,6 +321,10 @@ func runC05(c *Ctx) {
 			r.Sample(steps)
 		}
 	}
+	// (i-b) the rarely taken negotiation branch: a connection made shortly after a FAILED transport upgrade (the client then
+	// leaves the policy out of its request) must negotiate, register, answer a PING and end on Close like any other
+	c.run("stsfailedthenclose", map[string]string{"scenario": "ack, refused redial, plain session with PING, Close"})
+	r.Traces++
 	// (ii-b) churn: ONE other nick, two channels, the client itself joining and leaving (PART, KICK by an untracked source),
 	// the other user speaking, leaving, coming back in the same or another spelling — create/delete/re-create cycles of the
 	// same identity, where anything remembered about a deleted object shows
